@@ -320,5 +320,130 @@ theorem corr_ret (hs : SimpSound s) (hR : R I env code p st f) (hl : f.stack.len
   rw [(readMem_rel hR.mem loc size).2, hstep]
   rcases h with rfl | rfl <;> simp [haltWith]
 
+/-! ### CALLDATACOPY / CODECOPY -/
+
+theorem writeBytes_nil (m : List Nat) (off : Nat) : Evm.writeBytes m off [] = m := by simp [Evm.writeBytes]
+
+/-- the common tail: the concrete step copies `cdata`, the symbolic one writes the related byte terms `data` -/
+theorem corr_copyToMem (hR : R I env code p st f) (hsat : Sat I st.path) (hmem : cfg.maxMem + 32 ≤ p.memLimit)
+    {rest : List HV} {cs : List Nat} (hr : StackRel I rest cs) {loc size : Nat} {g : Nat → T} {cdata : List Nat}
+    (hd : MemRel I ((List.range size).map g) cdata)
+    (hstep : size = 0 ∨ loc + size ≤ p.memLimit → ∃ f', Evm.step p w f = .next w f' ∧ SameCtx f' f ∧
+      f'.pc = f.pc + 1 ∧ f'.stack = cs ∧ f'.mem = Evm.writeBytes f.mem loc cdata) :
+    Corr I env code p w s o cfg st f (copyToMemOut cfg st rest loc size g) := by
+  unfold copyToMemOut
+  split
+  · rename_i h0
+    obtain ⟨f', hs1, hctx, hpc, hfs, hfm⟩ := hstep (Or.inl h0)
+    have hnil : cdata = [] := by
+      rw [← hd.2, h0]; rfl
+    rw [hnil, writeBytes_nil] at hfm
+    refine Or.inl ⟨_, f', rfl, hsat, rfl, CReach.single hs1,
+      hR.next hctx.1 hctx.2.1 hctx.2.2.1 hctx.2.2.2.1 hctx.2.2.2.2 ?_ ?_ (hR.subst.same rfl rfl) ?_⟩
+    · rw [hpc, hR.pc]
+    · rw [hfs]; exact hr
+    · rw [hfm]; exact hR.mem
+  · split
+    · exact Corr.limit rfl
+    · rename_i hle
+      obtain ⟨f', hs1, hctx, hpc, hfs, hfm⟩ := hstep (Or.inr (by omega))
+      refine Or.inl ⟨_, f', rfl, hsat, rfl, CReach.single hs1,
+        hR.next hctx.1 hctx.2.1 hctx.2.2.1 hctx.2.2.2.1 hctx.2.2.2.2 ?_ ?_ (hR.subst.same rfl rfl) ?_⟩
+      · rw [hpc, hR.pc]
+      · rw [hfs]; exact hr
+      · rw [hfm]; exact writeMem_rel hR.mem hd loc
+
+/-- the calldata bytes CALLDATACOPY reads -/
+theorem calldata_bytes_rel (hR : R I env code p st f) (off size : Nat) :
+    MemRel I ((List.range size).map fun i => env.cdByte (off + i)) (Evm.readBytes f.calldata off size) := by
+  refine ⟨?_, ?_⟩
+  · intro b hb
+    simp only [List.mem_map] at hb
+    obtain ⟨i, _, rfl⟩ := hb
+    exact ⟨(hR.env.cdByte _).1, (hR.env.cdByte _).2.1⟩
+  · simp only [Evm.readBytes, List.map_map]
+    apply List.map_congr_left
+    intro i _
+    exact (hR.env.cdByte _).2.2
+
+/-- the code bytes CODECOPY reads (the code is a byte string) -/
+theorem code_bytes_rel (hR : R I env code p st f) (hcode : ∀ b ∈ code, b < 256) (off size : Nat) :
+    MemRel I ((List.range size).map fun i => T.lit 8 ((code[off + i]?).getD 0)) (Evm.readBytes f.code off size) := by
+  refine ⟨?_, ?_⟩
+  · intro b hb
+    simp only [List.mem_map] at hb
+    obtain ⟨i, _, rfl⟩ := hb
+    exact ⟨(by decide : 0 < 8), rfl⟩
+  · rw [hR.code]
+    simp only [Evm.readBytes, List.map_map]
+    apply List.map_congr_left
+    intro i _
+    simp only [Function.comp, T.eval]
+    have : (code[off + i]?).getD 0 < 256 := by
+      cases hg : code[off + i]? with
+      | none => simp
+      | some b => simp only [Option.getD_some]; exact hcode b (List.mem_of_getElem? hg)
+    exact Nat.mod_eq_of_lt (by simpa using this)
+
+theorem corr_calldatacopy (hs : SimpSound s) (hR : R I env code p st f) (hsat : Sat I st.path)
+    (hl : f.stack.length ≤ 1024) (hmem : cfg.maxMem + 32 ≤ p.memLimit) (hop : opAt code st.pc = 0x37)
+    {lv ov sv : HV} {rest : List HV} (hst : st.stack = lv :: ov :: sv :: rest) {s1 loc s2 off s3 size : Nat}
+    (h1 : toBV256 s lv = .bv s1 (.con loc)) (h2 : toBV256 s ov = .bv s2 (.con off))
+    (h3 : toBV256 s sv = .bv s3 (.con size)) :
+    Corr I env code p w s o cfg st f
+      (copyToMemOut cfg st rest loc size (fun i => env.cdByte (off + i))) := by
+  have hstk := hR.stack
+  rw [hst] at hstk
+  obtain ⟨c1, t1, e1, w1, r1⟩ := hstk.cons_inv
+  obtain ⟨c2, t2, e2, w2, r2⟩ := r1.cons_inv
+  obtain ⟨c3, t3, e3, w3, r3⟩ := r2.cons_inv
+  have := toBV256_con hs w1 h1; subst this
+  have := toBV256_con hs w2 h2; subst this
+  have := toBV256_con hs w3 h3; subst this
+  exact corr_copyToMem hR hsat hmem r3 (calldata_bytes_rel hR off size)
+    (fun hok => evm_calldatacopy (hR.hop hop) (by omega) (by rw [e1, e2, e3]) hok)
+
+theorem corr_codecopy (hs : SimpSound s) (hR : R I env code p st f) (hsat : Sat I st.path)
+    (hl : f.stack.length ≤ 1024) (hmem : cfg.maxMem + 32 ≤ p.memLimit) (hcode : ∀ b ∈ code, b < 256)
+    (hop : opAt code st.pc = 0x39)
+    {lv ov sv : HV} {rest : List HV} (hst : st.stack = lv :: ov :: sv :: rest) {s1 loc s2 off s3 size : Nat}
+    (h1 : toBV256 s lv = .bv s1 (.con loc)) (h2 : toBV256 s ov = .bv s2 (.con off))
+    (h3 : toBV256 s sv = .bv s3 (.con size)) :
+    Corr I env code p w s o cfg st f
+      (copyToMemOut cfg st rest loc size (fun i => T.lit 8 ((code[off + i]?).getD 0))) := by
+  have hstk := hR.stack
+  rw [hst] at hstk
+  obtain ⟨c1, t1, e1, w1, r1⟩ := hstk.cons_inv
+  obtain ⟨c2, t2, e2, w2, r2⟩ := r1.cons_inv
+  obtain ⟨c3, t3, e3, w3, r3⟩ := r2.cons_inv
+  have := toBV256_con hs w1 h1; subst this
+  have := toBV256_con hs w2 h2; subst this
+  have := toBV256_con hs w3 h3; subst this
+  exact corr_copyToMem hR hsat hmem r3 (code_bytes_rel hR hcode off size)
+    (fun hok => evm_codecopy (hR.hop hop) (by omega) (by rw [e1, e2, e3]) hok)
+
+/-- CODECOPY of an empty range with whatever offset: nothing happens -/
+theorem corr_codecopy_empty (hs : SimpSound s) (hR : R I env code p st f) (hsat : Sat I st.path)
+    (hl : f.stack.length ≤ 1024) (hop : opAt code st.pc = 0x39)
+    {lv ov sv : HV} {rest : List HV} (hst : st.stack = lv :: ov :: sv :: rest) {s1 loc s3 : Nat}
+    (h1 : toBV256 s lv = .bv s1 (.con loc)) (h3 : toBV256 s sv = .bv s3 (.con 0)) :
+    Corr I env code p w s o cfg st f (contOut { st with pc := st.pc + 1, stack := rest }) := by
+  have hstk := hR.stack
+  rw [hst] at hstk
+  obtain ⟨c1, t1, e1, w1, r1⟩ := hstk.cons_inv
+  obtain ⟨c2, t2, e2, w2, r2⟩ := r1.cons_inv
+  obtain ⟨c3, t3, e3, w3, r3⟩ := r2.cons_inv
+  have := toBV256_con hs w3 h3; subst this
+  obtain ⟨f', hs1, hctx, hpc, hfs, hfm⟩ :=
+    evm_codecopy (p := p) (w := w) (hR.hop hop) (by omega) (by rw [e1, e2, e3] : f.stack = c1 :: c2 :: 0 :: t3)
+      (Or.inl rfl)
+  have : Evm.readBytes f.code c2 0 = [] := by simp [Evm.readBytes]
+  rw [this, writeBytes_nil] at hfm
+  refine Or.inl ⟨_, f', rfl, hsat, rfl, CReach.single hs1,
+    hR.next hctx.1 hctx.2.1 hctx.2.2.1 hctx.2.2.2.1 hctx.2.2.2.2 ?_ ?_ (hR.subst.same rfl rfl) ?_⟩
+  · rw [hpc, hR.pc]
+  · rw [hfs]; exact r3
+  · rw [hfm]; exact hR.mem
+
 end
 end HalmosVerif.Lemmas.Sevm
